@@ -429,7 +429,7 @@ static void dfs(verif::Run& run, const Cfg& cfg, std::vector<Op>& prefix, int de
 
 int main(int argc, char** argv) {
     verif::Run run("C19", argc, argv);
-    run.setDeadline(240, 2400);
+    run.setDeadline(1200, 5400);   // safety net only: quick needs ~20-40 s on 16 idle cores (about 320 CPU-s), see notes
     const bool thorough = run.thorough();
     const std::vector<Op> A = alphabet();
     const std::vector<Op>& Afull = A;
